@@ -169,3 +169,18 @@ package magic
 //@ func magic.Text
 //@   ensures [C07_text] result == (hasBOM(raw) || (forall i :: 0 <= i && i < len(raw) ==> !isBinByte(raw[i])))
 //@   loop 1 invariant [C07_scan] forall j :: 0 <= j && j <= rangeindex ==> !isBinByte(raw[j])
+
+// --- C08 / C09: the whole-versus-truncated decision ---------------------------------------------
+// json_* are ghost copies of what json.Parse reported (0/false when the parse was not reached).
+//@ ghostvar json_parsed int
+//@ ghostvar json_inspected int
+//@ ghostvar json_satisfied bool
+//@ func magic.jsonHelper
+//@   ghost entry: json_parsed = 0
+//@   ghost entry: json_inspected = 0
+//@   ghost entry: json_satisfied = false
+//@   ghost return: json_parsed = parsed
+//@   ghost return: json_inspected = inspected
+//@   ghost return: json_satisfied = querySatisfied
+//@   ensures [C08C09_decision_whole] result && (limit == 0 || len(raw) < limit) ==> json_satisfied && json_parsed == len(raw)
+//@   ensures [C08C09_decision_cut] result && !(limit == 0 || len(raw) < limit) ==> json_satisfied && json_inspected == len(raw) && len(raw) > 0
